@@ -952,7 +952,7 @@ def _domains(draw, gene: dict, aminos: int, gindex: int, want_modular: bool) -> 
                         "tool": tool, "domain": draw(st.sampled_from([None, "p450", "ketoacyl-synt"])),
                         "label": draw(st.sampled_from([None, "p450"])), "database": draw(st.sampled_from([None, "35.0"])),
                         "id": f"{tool}_{name}_{dindex:04d}",
-                        "go": None if draw(_one_in(6)) else draw(st.sampled_from([
+                        "go": None if draw(st.booleans()) else draw(st.sampled_from([
                             {"GO:0004871": "signal transducer activity"},
                             {"GO:0016020": "membrane", "GO:0005215": "transporter activity"}]))})
         else:
@@ -1037,7 +1037,7 @@ def _gene_details(draw, gene: dict, gindex: int, circular: bool, modular_bias: b
         quals["inference"] = ["COORDINATES: similar to AA sequence:RefSeq:WP_000000001.1"]
     gene["quals"] = quals
     gene["added_notes"] = []
-    if draw(_one_in(24)):
+    if draw(_one_in(8)):
         gene["added_notes"] = [f"smCOG tree PNG image: smcogs/{gene['name']}.png"]
     if gene["gene_feature"] and draw(_one_in(4)):
         gene["gene_quals"] = {"note": [draw(_text(3))]}
@@ -1110,7 +1110,7 @@ def _protoclusters(draw, genes: list, length: int, circular: bool, count: int, a
     arcs = [_gene_arc(g, length) for g in genes]
     order = sorted(range(len(genes)), key=lambda i: arcs[i][0])
     for pindex in range(count):
-        sideloaded = draw(_one_in(16))
+        sideloaded = draw(_one_in(6))
         reuse = protos and draw(_one_in(3 if allow_ties else 5))
         if reuse:
             previous = draw(st.sampled_from(protos))
